@@ -69,6 +69,21 @@ def line_6_for_domain(query, domain, graph):
     return new_query
 
 
+# ---- line 2: restrict to the ancestors of the outcomes: interventions among them, every domain's diagram cut down to ITS OWN ancestors of the
+# ---- outcomes, and the distribution in hand marginalised over the non-ancestors among the regular nodes of the CURRENT domain's diagram
+def line_2(query, outcomes_ancestors):
+    new_query = deepcopy(query)
+    new_query.target_interventions.intersection_update(outcomes_ancestors)
+    for domain, graph in query.graphs.items():
+        new_query.graphs[domain] = graph.subgraph(graph.ancestors_inclusive(query.target_outcomes))
+    new_query.expression = Sum.safe(query.expression, get_regular_nodes(query.graphs[query.domain]) - outcomes_ancestors, simplify=True)
+    if isinstance(new_query.expression, Probability):
+        if not isinstance(new_query.expression, PopulationProbability):
+            raise TypeError
+        new_query.expression = PopulationProbability(population=new_query.domain, distribution=Distribution(children=new_query.expression.children))
+    return new_query
+
+
 # ---- line 3: more interventions, nothing else
 def line_3(query, additional_interventions):
     new_query = deepcopy(query)
